@@ -19,8 +19,8 @@ import Ovsdb.Model.Equiv
 
   The full refinement (whole transactions of the overlay engine = reference
   interpreter) is NOT proved; it is the oracle of the correspondence run.
-  Known deviations of the pinned tree (D15 select ignores 'columns', D16 wait
-  compares counts) are recorded in known_findings.json.
+  Deviations found on the pinned tree (D15 select ignored 'columns', D16 wait
+  compared counts) were repaired; see known_findings.json.
 -/
 namespace Ovsdb.C03
 open Ovsdb AMap
@@ -266,6 +266,64 @@ theorem later_ops_start_from_earlier (σ : DbModel) (db : Database) (tx : Txn) (
     (h3 : applyStep { tx1 with updates := upd } step = .ok tx2) :
     runOps σ db tx (op :: rest) = (r :: (runOps σ db tx2 rest).1, (runOps σ db tx2 rest).2.1, (runOps σ db tx2 rest).2.2) := by
   simp [runOps, h1, h2, h3]
+
+theorem get?_filter_str {ν : Type} (l : AMap String ν) (f : String → Bool) (k : String) :
+    get? (l.filter (fun p => f p.1)) k = if f k then get? l k else none := by
+  induction l with
+  | nil => simp
+  | cons p t ih =>
+    obtain ⟨pk, pv⟩ := p
+    simp only [List.filter_cons]
+    by_cases hf : f pk = true
+    · simp only [hf, if_true, get?_cons, ih]
+      by_cases e : pk = k
+      · subst e; simp [hf]
+      · simp [e]
+    · simp only [hf, Bool.false_eq_true, if_false, ih, get?_cons]
+      by_cases e : pk = k
+      · subst e; simp [hf]
+      · simp [e]
+
+/-- the projection of a result row: a named column is as in the full row, any
+    other column is absent; with no `columns` the row is returned whole -/
+theorem projectRow_get (columns : List String) (r : OvsRow) (c : String) :
+    get? (projectRow columns r) c =
+      if columns = [] ∨ c ∈ columns then get? r c else none := by
+  unfold projectRow
+  cases columns with
+  | nil => simp
+  | cons a t =>
+    simp only [List.isEmpty_cons, Bool.false_eq_true, if_false, reduceCtorEq, false_or]
+    rw [get?_filter_str r (fun k => (a :: t).contains k) c]
+    simp
+
+/-- **C03 (10)** `select` with `columns` (RFC 7047 5.2.2): every returned row
+    holds exactly the named columns of the selected row -- a column that is not
+    named is absent, a named one has the value the full row has. -/
+theorem select_returns_named_columns (σ : DbModel) (db : Database) (tx tx1 : Txn) (op : Operation)
+    (r : OpResult) (step : List ((String × UUID) × ModelUpdate))
+    (hop : op.op = "select") (h : execOp σ db tx op = .ok (r, tx1, step)) :
+    ∃ full : List OvsRow, r.rows = full.map (projectRow op.columns) ∧
+      ∀ row ∈ r.rows, ∀ c, op.columns ≠ [] → c ∉ op.columns → get? row c = none := by
+  unfold execOp at h
+  simp only [hop, String.reduceEq, if_false, if_true] at h
+  split at h
+  · cases h
+  · split at h
+    · cases h
+    · split at h
+      · cases h
+      · rename_i out _
+        simp only [Except.ok.injEq, Prod.mk.injEq] at h
+        obtain ⟨hr, _, _⟩ := h
+        subst hr
+        refine ⟨out, rfl, ?_⟩
+        intro row hrow c hne hc
+        simp only [List.mem_map] at hrow
+        obtain ⟨fr, _, hfr⟩ := hrow
+        subst hfr
+        rw [projectRow_get]
+        simp [hne, hc]
 
 /-! Non-vacuity: read-your-writes inside one transaction, evaluated by the kernel
     on both the model of the code and the reference. -/
